@@ -48,11 +48,14 @@ def check_reexport(kw, order):
     if kw["local_def"] == "after":
         # a later local definition of the exported name supersedes the import, as in Python
         return True
+    if s.allobjects[exporter].contents.get(newname) is not X or X.parent is not s.allobjects[exporter]:
+        note(why="re-exported object is registered but is not a member of the exporting module (documented zero times)", **ctx)
+        return False
     if old in s.allobjects or any(k.startswith(old + ".") for k in s.allobjects):
         note(why="object (or a member) still documented under the defining module", keys=[k for k in s.allobjects if k.startswith(old)], **ctx)
         return False
     members = [k for k in s.allobjects if k.startswith(new + ".")]
-    want_members = {"class": 1 + (2 if kw["nested"] else 0), "func": 0}[kw["xkind"]]
+    want_members = {"class": 2 + (2 if kw["nested"] else 0), "func": 0}[kw["xkind"]]
     if len(members) != want_members:
         note(why="members of the moved object not documented exactly once under the new name", members=members, **ctx)
         return False
